@@ -118,7 +118,8 @@ func (le *LayoutElement) ToModelElement() model.Element {
 	case model.ElementTypeList:
 		var items []model.ListItem
 		if le.List != nil {
-			for _, item := range le.List.Items {
+			// nested items are part of the list: flatten them, Level tells the depth
+			for _, item := range le.List.GetAllItems() {
 				items = append(items, model.ListItem{
 					Text:  item.Text,
 					Level: item.Level,
@@ -479,10 +480,11 @@ func markListParagraphs(items []ListItem, consumed map[int]bool) {
 	}
 }
 
-// getListText extracts all text from a list by concatenating item prefixes and text.
+// getListText extracts all text from a list by concatenating item prefixes and text
+// of every item, nested items included.
 func getListText(list *List) string {
 	var text string
-	for _, item := range list.Items {
+	for _, item := range list.GetAllItems() {
 		text += item.Prefix + " " + item.Text + "\n"
 	}
 	return text
